@@ -94,13 +94,9 @@ func PlayJournal(j []byte, pageSize uint32) JournalPlayback {
 		recSize := int64(pageSize) + 8
 		if nRec == 0xFFFFFFFF {
 			nRec = uint32((size - int64(sector)) / recSize)
-		} else if nRec == 0 && first {
-			// SQLite: if nRec==0 and this is the last header (the journal was not
-			// synced) derive the count from the file size. LiteFS does the same.
-			nRec = uint32((size - off) / recSize)
-		} else if nRec == 0 {
-			nRec = uint32((size - off) / recSize)
 		}
+		// Hot journal: nRec==0 always means the segment holds no pages to roll
+		// back (it was never synced, so none of its pages reached the database).
 		for i := uint32(0); i < nRec; i++ {
 			if off+recSize > size {
 				return out
